@@ -34,9 +34,9 @@ package lock
 //@   at entry ghost nrw = 0
 //@   at every call Lock ghost nrw = nrw + (arg0 == c.lock ? 1 : 100)
 //@   ensures [C13.ctxlock.rw] nrw == (result == nil ? 1 : 0)
-//@   at select#0 ghost c.tokens = c.tokens + (res0 == 1 ? 1 : 0)
-//@   at select#0 assert [C13.ctxlock.waits-on-ctx] arg0 == ctx.donech && arg1 == c.locked && res0 >= 0
-//@   at select#0 ghost ctx.ctxdone = ctx.ctxdone || res0 == 0
+//@   at select#0 ghost c.tokens = c.tokens + ((res0 >= 0 && selsend && selchan == c.locked) ? 1 : 0)
+//@   at select#0 assert [C13.ctxlock.waits-on-ctx] selcases == 2 && selhas(ctx.donech) && selhassend(c.locked) && selblocking
+//@   at select#0 ghost ctx.ctxdone = ctx.ctxdone || (res0 >= 0 && !selsend && selchan == ctx.donech)
 
 //@ func (*Context).RLock
 //@   tags C13 C07
@@ -49,9 +49,9 @@ package lock
 //@   at entry ghost nrw = 0
 //@   at every call RLock ghost nrw = nrw + (arg0 == c.lock ? 1 : 100)
 //@   ensures [C13.ctxrlock.rw] nrw == (result == nil ? 1 : 0)
-//@   at select#0 ghost c.tokens = c.tokens + (res0 == 1 ? 1 : 0)
-//@   at select#0 assert [C13.ctxrlock.waits-on-ctx] arg0 == ctx.donech && arg1 == c.locked && res0 >= 0
-//@   at select#0 ghost ctx.ctxdone = ctx.ctxdone || res0 == 0
+//@   at select#0 ghost c.tokens = c.tokens + ((res0 >= 0 && selsend && selchan == c.locked) ? 1 : 0)
+//@   at select#0 assert [C13.ctxrlock.waits-on-ctx] selcases == 2 && selhas(ctx.donech) && selhassend(c.locked) && selblocking
+//@   at select#0 ghost ctx.ctxdone = ctx.ctxdone || (res0 >= 0 && !selsend && selchan == ctx.donech)
 
 //@ func (*Context).Unlock
 //@   tags C13 C07
@@ -146,7 +146,7 @@ package lock
 //@   opt go=ignore
 //@   loop 0 invariant o == old(o) && h == old(h) && heldw(o.rcancelLock) && o.tokens == old(o.tokens) + 1 && waited == 0 && o.rcancels != nil
 //@   loop 0 invariant nspawn == rangecount && o.rcancels == at(LK, o.rcancels) && len(o.rcancels) == at(LK, len(o.rcancels)) && (forall k uint64 :: haskey(o.rcancels, k) == at(LK, haskey(o.rcancels, k)))
-//@   at select#0 ghost o.tokens = o.tokens + (res0 == 0 ? 1 : 0)
+//@   at select#0 ghost o.tokens = o.tokens + ((res0 >= 0 && selsend && selchan == o.lock) ? 1 : 0)
 //@   at every send ghost o.tokens = o.tokens + (arg0 == o.lock ? 1 : 0)
 //@   at every recv ghost o.tokens = o.tokens - (arg0 == o.lock ? 1 : 0)
 //@   at call Lock#0 assume o.draining ==> (forall k uint64 :: !haskey(o.rcancels, k))
@@ -155,17 +155,17 @@ package lock
 //@   at store rcancelx#0 ghost o.draining = true
 //@   at call Lock#0 ghost waited = 0
 //@   at call Wait#0 ghost waited = 1
-//@   at send#2 assert [C13.outer.writer.after-wait] waited == 1
+//@   at send respCh#1 assert [C13.outer.writer.after-wait] waited == 1
 //@   at call Lock#0 label LK
 //@   ghost nspawn int
 //@   at call Lock#0 ghost nspawn = 0
 //@   at every go ghost nspawn = nspawn + 1
-//@   at send#2 assert [C13.outer.writer.sweep-all] nspawn == at(LK, len(o.rcancels))
-//@   at select#0 assert [C13.outer.hold.waits-on-ctx] arg0 == o.lock && arg1 == h.rctx.donech && res0 >= 0
-//@   at select#0 ghost h.rctx.ctxdone = h.rctx.ctxdone || res0 == 1
-//@   at before send#0 assert [C13.outer.resp.err-holds-nothing] h.rctx != nil && !h.writeLock && arg0 == h.respCh && arg1 != nil && arg1.err != nil && arg1.rctx == nil && arg1.cancel == nil && o.tokens == old(o.tokens)
-//@   at before send#2 assert [C13.outer.resp.writer] arg0 == h.respCh && arg1 != nil && arg1.err == nil && arg1.rctx == nil && arg1.cancel != nil && isfunc(arg1.cancel, "(*OuterCancel).handleHold$1") && o.tokens == old(o.tokens) + 1
-//@   at before send#3 assert [C13.outer.resp.reader] arg0 == h.respCh && arg1 != nil && arg1.err == nil && arg1.rctx == rctx && rctx != nil && rctx.ctxparent == h.rctx && isfunc(arg1.cancel, "(*OuterCancel).handleHold$2") && at(UR, haskey(o.rcancels, i)) && at(UR, isfunc(o.rcancels[i], "(*OuterCancel).handleHold$3"))
+//@   at send respCh#1 assert [C13.outer.writer.sweep-all] nspawn == at(LK, len(o.rcancels))
+//@   at select#0 assert [C13.outer.hold.waits-on-ctx] selcases == 2 && selhassend(o.lock) && selhas(h.rctx.donech) && selblocking
+//@   at select#0 ghost h.rctx.ctxdone = h.rctx.ctxdone || (res0 >= 0 && !selsend && selchan == h.rctx.donech)
+//@   at before send respCh#0 assert [C13.outer.resp.err-holds-nothing] h.rctx != nil && !h.writeLock && arg0 == h.respCh && arg1 != nil && arg1.err != nil && arg1.rctx == nil && arg1.cancel == nil && o.tokens == old(o.tokens)
+//@   at before send respCh#1 assert [C13.outer.resp.writer] arg0 == h.respCh && arg1 != nil && arg1.err == nil && arg1.rctx == nil && arg1.cancel != nil && isfunc(arg1.cancel, "(*OuterCancel).handleHold$1") && o.tokens == old(o.tokens) + 1
+//@   at before send respCh#2 assert [C13.outer.resp.reader] arg0 == h.respCh && arg1 != nil && arg1.err == nil && arg1.rctx == rctx && rctx != nil && rctx.ctxparent == h.rctx && isfunc(arg1.cancel, "(*OuterCancel).handleHold$2") && at(UR, haskey(o.rcancels, i)) && at(UR, isfunc(o.rcancels[i], "(*OuterCancel).handleHold$3"))
 //@   at before call Unlock#1 label UR
 //@   at before mapupdate#0 assert [C13.outer.reader.fresh-slot] !haskey(o.rcancels, i)
 //@   at mapupdate#0 assert [C13.outer.reader.registers-grace] haskey(o.rcancels, i) && isfunc(o.rcancels[i], "(*OuterCancel).handleHold$3") && isfunc(rcancel, "(*OuterCancel).handleHold$2")
@@ -203,7 +203,7 @@ package lock
 //@   ghost sel int
 //@   at entry ghost sel = 0
 //@   at before call After#0 assert [C13.outer.grace.duration] arg0 == o.gracefulTimeout
-//@   at select#0 assert [C13.outer.grace.waits] res0 >= 0 && arg1 == o.closeCh && arg2 == doneCh
+//@   at select#0 assert [C13.outer.grace.waits] selblocking && selcases == 3 && selhas(o.closeCh) && selhas(doneCh)
 //@   at select#0 ghost sel = sel + 1
 //@   at every before call funcvalue assert [C13.outer.grace.then-cancel] sel == 1 && isfunc(rcancel, "(*OuterCancel).handleHold$2") && !held(o.rcancelLock)
 
@@ -227,10 +227,10 @@ package lock
 //@ func (*OuterCancel).RLock
 //@   tags C13 C07
 //@   requires o != nil && ctx != nil
-//@   at select#0 ghost ctx.ctxdone = ctx.ctxdone || res0 == 1
-//@   at select#0 assert [C13.outer.rlock.waits-on-ctx.queue] res0 >= 0 && arg0 == o.closeCh && arg1 == ctx.donech && arg2 == o.ch && selsend == (res0 == 2)
+//@   at select#0 ghost ctx.ctxdone = ctx.ctxdone || (res0 >= 0 && !selsend && selchan == ctx.donech)
+//@   at select#0 assert [C13.outer.rlock.waits-on-ctx.queue] selblocking && selcases == 3 && selhas(o.closeCh) && selhas(ctx.donech) && selhassend(o.ch)
 //@   at select#1 assert [C13.outer.rlock.waits-on-ctx.answer] res0 >= 0 && selhas(ctx.donech)
-//@   at select#1 assert [C13.outer.rlock.answer] arg0 == o.closeCh && arg1 == h.respCh
+//@   at select#1 assert [C13.outer.rlock.answer] selcases == 2 && selhas(o.closeCh) && selhas(h.respCh)
 //@   ensures [C13.outer.rlock.err] result2 != nil ==> (result == nil && result1 == nil)
 //@   ensures [C13.outer.rlock.ok] result2 == nil ==> result1 != nil
 
@@ -243,10 +243,10 @@ package lock
 //@   ghost viaAnswer bool
 //@   at entry ghost queued = false
 //@   at entry ghost viaAnswer = false
-//@   at select#0 ghost queued = res0 == 1
-//@   at select#1 ghost viaAnswer = res0 == 1
-//@   at select#0 assert [C13.outer.lock.queue] res0 >= 0 && arg0 == o.closeCh && arg1 == o.ch && selsend == (res0 == 1)
-//@   at select#1 assert [C13.outer.lock.answer] res0 >= 0 && arg0 == o.closeCh && arg1 == h.respCh && queued
+//@   at select#0 ghost queued = (res0 >= 0 && selsend && selchan == o.ch)
+//@   at select#1 ghost viaAnswer = (res0 >= 0 && !selsend && selchan == h.respCh)
+//@   at select#0 assert [C13.outer.lock.queue] selblocking && selcases == 2 && selhas(o.closeCh) && selhassend(o.ch)
+//@   at select#1 assert [C13.outer.lock.answer] selblocking && selcases == 2 && selhas(o.closeCh) && selhas(h.respCh) && queued
 //@   ensures [C13.outer.lock.shutdown] !viaAnswer ==> (isfunc(result, "(*github.com/dapr/kit/concurrency/fifo.Mutex).Unlock$bound") && bound(result, 0, "*github.com/dapr/kit/concurrency/fifo.Mutex") == o.shutdownLock && nsl == 1)
 //@   ensures [C13.outer.lock.running] viaAnswer ==> nsl == 0
 //@   ghost nsl int
